@@ -6,6 +6,8 @@
       the edges in the order of the list);
     - [None] is the number [n] and the empty string the number [n + 1] (neither is a vertex);
     - the recursion fuel is [n + 1] (IdentifyGenProofs.v proves that it suffices on a DAG);
+    - sets are iterated in list order ([pyorder_id]); the [cigo_] variants take the iteration
+      order as a parameter (IdentifyGenProofs.v proves that the result sets do not depend on it);
     - a result is [Ret l] with [l] SORTED (Python returns [list(set)], whose order is hash
       dependent), [Exc e] when the Python function raises [e], [Fuel] never on a DAG. *)
 From CG Require Import Base Digraph Identify Markov PyRt IdentifyGen.
@@ -25,21 +27,25 @@ Definition cig_sorted (o : pyout (list nat)) : pyout (list nat) :=
   end.
 
 (** [identify_confounders(graph, x, y)] *)
-Definition cig_confounders (n : nat) (arcs : list (nat * nat)) (x y : nat) : pyout (list nat) :=
-  cig_sorted (gen_identify_confounders Nat.eqb (cig_none n) (cig_empty_str n) (cig_fuel n)
+Definition cigo_confounders (ord : pyorder) (n : nat) (arcs : list (nat * nat)) (x y : nat)
+  : pyout (list nat) :=
+  cig_sorted (gen_identify_confounders Nat.eqb (cig_none n) (cig_empty_str n) ord (cig_fuel n)
                 (cig_graph n arcs) x y).
+Definition cig_confounders := cigo_confounders pyorder_id.
 
 (** [identify_instruments(graph, x, y, max_num_paths)] *)
-Definition cig_instruments_max (n : nat) (arcs : list (nat * nat)) (x y max_num_paths : nat)
-  : pyout (list nat) :=
-  cig_sorted (gen_identify_instruments Nat.eqb (cig_none n) (cig_empty_str n) (cig_fuel n)
+Definition cigo_instruments_max (ord : pyorder) (n : nat) (arcs : list (nat * nat))
+           (x y max_num_paths : nat) : pyout (list nat) :=
+  cig_sorted (gen_identify_instruments Nat.eqb (cig_none n) (cig_empty_str n) ord (cig_fuel n)
                 (cig_graph n arcs) x y max_num_paths).
+Definition cig_instruments_max := cigo_instruments_max pyorder_id.
 
 (** [identify_mediators(graph, x, y, max_num_paths)] *)
-Definition cig_mediators_max (n : nat) (arcs : list (nat * nat)) (x y max_num_paths : nat)
-  : pyout (list nat) :=
-  cig_sorted (gen_identify_mediators Nat.eqb (cig_none n) (cig_empty_str n) (cig_fuel n)
+Definition cigo_mediators_max (ord : pyorder) (n : nat) (arcs : list (nat * nat))
+           (x y max_num_paths : nat) : pyout (list nat) :=
+  cig_sorted (gen_identify_mediators Nat.eqb (cig_none n) (cig_empty_str n) ord (cig_fuel n)
                 (cig_graph n arcs) x y max_num_paths).
+Definition cig_mediators_max := cigo_mediators_max pyorder_id.
 
 (** with the default [max_num_paths = 25] *)
 Definition cig_instruments (n : nat) (arcs : list (nat * nat)) (x y : nat) : pyout (list nat) :=
@@ -48,14 +54,17 @@ Definition cig_mediators (n : nat) (arcs : list (nat * nat)) (x y : nat) : pyout
   cig_mediators_max n arcs x y 25.
 
 (** [identify_markov_boundary(graph, x)] *)
-Definition cig_markov_boundary (n : nat) (arcs : list (nat * nat)) (x : nat) : pyout (list nat) :=
-  cig_sorted (gen_identify_markov_boundary Nat.eqb (cig_none n) (cig_empty_str n) (cig_graph n arcs) x).
+Definition cigo_markov_boundary (ord : pyorder) (n : nat) (arcs : list (nat * nat)) (x : nat)
+  : pyout (list nat) :=
+  cig_sorted (gen_identify_markov_boundary Nat.eqb (cig_none n) (cig_empty_str n) ord (cig_graph n arcs) x).
+Definition cig_markov_boundary := cigo_markov_boundary pyorder_id.
 
 (** [identify_colliders(graph, unshielded_only)] on a graph with arbitrary edge types: the nodes
     [0 .. n-1] and the edges [(source, destination, type)] in insertion order. *)
-Definition cig_colliders (n : nat) (edges : list (nat * nat * etype)) (unshielded_only : bool)
-  : pyout (list nat) :=
-  cig_sorted (gen_identify_colliders Nat.eqb {| mnodes := seq 0 n; medges := edges |} unshielded_only).
+Definition cigo_colliders (ord : pyorder) (n : nat) (edges : list (nat * nat * etype))
+           (unshielded_only : bool) : pyout (list nat) :=
+  cig_sorted (gen_identify_colliders Nat.eqb ord {| mnodes := seq 0 n; medges := edges |} unshielded_only).
+Definition cig_colliders := cigo_colliders pyorder_id.
 
 (** The three result sets of one call. *)
 Definition cig_all (n : nat) (arcs : list (nat * nat)) (x y : nat)
@@ -108,12 +117,120 @@ Example cig_ex_markov :
                           (5, 10); (11, 6); (11, 12)] 4 = Ret [2; 3; 5; 6; 8; 11] /\
   cig_markov_boundary 2 [(0, 1)] 5 = Exc PyNodeDoesNotExistError.
 Proof. vm_compute. split; reflexivity. Qed.
-(** a -> c <- b, c <> d, d -- e, a -> e (a b c d e = 0 .. 4): c (a, b, d point into it) and d
-    (c <> d only: one arrowhead) ... the real library returns ['c'] for both settings of
-    unshielded_only; adding b -> a keeps c a collider, unshielded because a, d are not adjacent *)
+(** a -> c <- b, c <> d, d -- e, a -> e (a b c d e = 0 .. 4): the real library returns ['c'] for
+    both settings of unshielded_only (a, b, d point into c and are pairwise non-adjacent; d has a
+    single arrowhead).  a -> c <- b with a -- b: c is a collider, but a shielded one. *)
 Example cig_ex_colliders :
   cig_colliders 5 [(0, 2, Dir); (1, 2, Dir); (2, 3, Bi); (3, 4, Und); (0, 4, Dir)] false = Ret [2] /\
   cig_colliders 5 [(0, 2, Dir); (1, 2, Dir); (2, 3, Bi); (3, 4, Und); (0, 4, Dir)] true = Ret [2] /\
   cig_colliders 3 [(0, 2, Dir); (1, 2, Dir); (0, 1, Und)] false = Ret [2] /\
   cig_colliders 3 [(0, 2, Dir); (1, 2, Dir); (0, 1, Und)] true = Ret [].
+Proof. vm_compute. repeat split; reflexivity. Qed.
+
+(** The other concrete iteration order (reversed at the odd observation sites) gives the same
+    sorted results on the examples above. *)
+Example cig_ex_other_order :
+  cigo_confounders pyorder_alt 4 [(0, 1); (1, 2); (1, 3); (2, 3)] 2 3 = Ret [1] /\
+  cigo_instruments_max pyorder_alt 4 [(0, 2); (1, 2); (1, 3); (2, 3)] 2 3 25 = Ret [0] /\
+  cigo_mediators_max pyorder_alt 4 [(0, 1); (1, 2); (3, 0); (3, 2); (0, 2)] 0 2 25 = Ret [1] /\
+  cigo_mediators_max pyorder_alt 4 [(0, 1); (1, 3); (0, 2); (2, 3); (0, 3)] 0 3 1 = Exc PyValueError /\
+  cigo_colliders pyorder_alt 5 [(0, 2, Dir); (1, 2, Dir); (2, 3, Bi); (3, 4, Und); (0, 4, Dir)] true = Ret [2].
+Proof. vm_compute. repeat split; reflexivity. Qed.
+
+(** * Regression cases
+
+    Random DAGs / random graphs with arbitrary edge types; every expected value is what the real
+    library returned (seeded generator, PYTHONHASHSEED=0).  A DAG case is
+    [(n, arcs, x, y, max_num_paths, (confounders, instruments, mediators), markov_boundary of x)], a mixed
+    case is [(n, edges, colliders, unshielded colliders)].  Both iteration orders are checked.
+    (Several thousand more cases of the same kind were checked in scratch files; see the report.) *)
+Definition cig_regression_dags :
+  list (nat * list (nat * nat) * nat * nat * nat * (pyout (list nat) * pyout (list nat) * pyout (list nat)) * pyout (list nat)) :=
+  [(7, [(5, 6); (0, 3); (4, 6); (0, 4); (0, 6); (4, 1); (1, 2); (3, 4); (3, 6); (0, 2); (0, 1); (1, 6)], 2, 1, 25, (Ret [0], Ret [], Ret []), Ret [0; 1]);
+   (4, [(3, 2); (2, 0); (3, 0); (3, 1); (2, 1)], 3, 0, 25, (Ret [], Ret [], Ret [2]), Ret [0; 1; 2]);
+   (6, [(3, 1); (4, 1); (1, 5); (0, 2)], 0, 4, 25, (Ret [], Ret [], Ret []), Ret [2]);
+   (5, [(1, 4); (3, 0); (3, 2); (1, 3)], 4, 2, 25, (Ret [1], Ret [], Ret []), Ret [1]);
+   (7, [(4, 1); (2, 5); (1, 3); (4, 5); (0, 6); (1, 5); (4, 3); (0, 1); (0, 5); (0, 3); (4, 2); (2, 6)], 6, 2, 1, (Ret [], Ret [], Ret []), Ret [0; 2]);
+   (8, [(5, 7); (4, 2); (4, 6); (7, 2); (5, 6); (0, 5); (4, 3); (5, 2); (4, 7); (1, 3); (5, 4); (7, 1); (7, 3); (0, 1)], 3, 6, 2, (Ret [4; 5], Ret [], Ret []), Ret [1; 4; 7]);
+   (6, [(4, 3); (5, 3); (2, 3); (5, 4); (0, 5); (1, 2); (0, 4); (1, 5)], 5, 3, 2, (Ret [0; 1], Ret [], Ret []), Ret [0; 1; 2; 3; 4]);
+   (8, [(3, 1); (3, 2); (5, 0); (3, 7); (3, 4); (6, 4); (3, 6); (7, 4); (7, 0); (0, 2)], 1, 2, 25, (Ret [3], Ret [], Ret []), Ret [3]);
+   (4, [(1, 2); (0, 1)], 1, 3, 1, (Ret [], Ret [0], Ret []), Ret [0; 2]);
+   (8, [(5, 4); (2, 0); (6, 3); (5, 7); (6, 1); (7, 0); (4, 1); (5, 0); (4, 0); (4, 7); (5, 3); (1, 0); (1, 3)], 7, 4, 25, (Ret [5], Ret [], Ret []), Ret [0; 1; 2; 4; 5]);
+   (7, [(6, 3); (2, 3); (6, 4); (1, 6); (4, 0); (0, 3); (4, 3); (2, 0); (2, 1); (1, 5); (6, 5); (1, 3)], 3, 4, 25, (Ret [6], Ret [], Ret []), Ret [0; 1; 2; 4; 6]);
+   (7, [(2, 4); (6, 4); (6, 1); (1, 4); (5, 2); (5, 1); (5, 0); (5, 6)], 1, 6, 1, (Ret [5], Ret [], Ret []), Ret [2; 4; 5; 6]);
+   (5, [(3, 1); (3, 0); (3, 4); (3, 2)], 0, 4, 25, (Ret [3], Ret [], Ret []), Ret [3]);
+   (5, [(3, 0); (2, 3); (1, 4); (2, 4); (3, 4); (1, 3)], 2, 1, 2, (Ret [], Ret [], Ret []), Ret [1; 3; 4]);
+   (7, [(4, 6); (4, 0); (2, 4); (4, 5); (3, 0); (1, 3); (2, 1); (2, 3); (2, 0)], 0, 6, 1, (Ret [4], Ret [], Ret []), Ret [2; 3; 4]);
+   (6, [(1, 2); (1, 5); (1, 4); (3, 5); (3, 2); (1, 0); (0, 4); (0, 3)], 5, 0, 1, (Ret [1], Ret [], Ret []), Ret [1; 3]);
+   (8, [(1, 2); (1, 4); (2, 4); (3, 0); (3, 2); (1, 6); (5, 0)], 2, 4, 25, (Ret [1], Ret [3], Ret []), Ret [1; 3; 4]);
+   (6, [(0, 2); (3, 4); (5, 1); (5, 2); (4, 5)], 3, 1, 25, (Ret [], Ret [], Ret [4; 5]), Ret [4]);
+   (5, [(2, 3); (4, 1); (3, 0); (3, 4); (2, 1)], 4, 0, 25, (Ret [3], Ret [], Ret []), Ret [1; 2; 3]);
+   (4, [(1, 3); (1, 0)], 1, 0, 2, (Ret [], Ret [], Ret []), Ret [0; 3]);
+   (6, [(4, 1); (5, 0); (5, 2); (3, 2); (0, 4); (3, 0); (5, 1); (5, 4); (4, 2)], 0, 1, 2, (Ret [5], Ret [3], Ret []), Ret [3; 4; 5]);
+   (7, [(1, 0); (3, 0); (1, 3); (6, 3); (6, 4); (6, 0); (1, 2); (2, 0); (4, 3); (5, 1)], 1, 6, 25, (Ret [], Ret [5], Ret []), Ret [0; 2; 3; 4; 5; 6]);
+   (7, [(3, 0); (6, 0); (2, 0); (1, 2); (6, 4); (3, 6); (3, 4); (1, 3); (1, 0); (2, 6)], 0, 3, 25, (Ret [1], Ret [], Ret []), Ret [1; 2; 3; 6]);
+   (8, [(6, 5); (7, 3); (4, 5); (1, 3); (0, 5); (1, 2); (2, 6); (1, 7); (0, 7); (1, 5); (2, 4); (0, 2); (2, 7); (3, 4)], 7, 2, 25, (Ret [0; 1], Ret [], Ret []), Ret [0; 1; 2; 3]);
+   (5, [(2, 0); (4, 1); (2, 3); (4, 3); (0, 3)], 4, 1, 1, (Ret [], Ret [], Ret []), Ret [0; 1; 2; 3]);
+   (8, [(6, 7); (3, 2); (4, 1); (5, 1); (4, 0); (3, 5); (2, 1); (2, 6); (4, 6); (3, 4); (0, 1); (2, 4); (7, 5)], 5, 7, 1, (Ret [3], Ret [], Ret []), Ret [0; 1; 2; 3; 4; 7]);
+   (8, [(5, 4); (6, 5); (3, 4); (2, 4); (2, 5); (5, 7); (6, 4); (3, 0); (0, 7); (0, 1); (6, 1); (4, 1); (6, 7); (6, 0); (2, 0)], 7, 1, 1, (Ret [0; 5; 6], Ret [], Ret []), Ret [0; 5; 6]);
+   (5, [(4, 1); (0, 3); (2, 4); (0, 4); (2, 3); (3, 4)], 3, 2, 25, (Ret [], Ret [], Ret []), Ret [0; 2; 4]);
+   (5, [(2, 0); (4, 1); (1, 3)], 0, 2, 25, (Ret [], Ret [], Ret []), Ret [2]);
+   (7, [(0, 6); (1, 3); (5, 0); (4, 3); (4, 6); (6, 3); (5, 6)], 4, 2, 25, (Ret [], Ret [], Ret []), Ret [0; 1; 3; 5; 6]);
+   (6, [(2, 0); (3, 5); (4, 5); (0, 3); (2, 4); (2, 3)], 0, 4, 25, (Ret [2], Ret [], Ret []), Ret [2; 3]);
+   (5, [(4, 0); (1, 4); (3, 0); (1, 3); (2, 0); (4, 3)], 1, 3, 2, (Ret [], Ret [], Ret [4]), Ret [3; 4]);
+   (7, [(1, 3); (1, 6); (4, 0); (0, 6); (2, 5); (5, 6); (2, 0); (1, 2); (2, 3)], 2, 6, 1, (Ret [1], Ret [], Ret []), Ret [0; 1; 3; 4; 5]);
+   (4, [(3, 0); (2, 0)], 0, 1, 1, (Ret [], Ret [2; 3], Ret []), Ret [2; 3]);
+   (8, [(0, 3); (2, 5); (3, 1); (5, 3); (2, 3); (2, 1); (2, 4); (0, 7); (3, 4); (6, 7); (0, 2); (7, 1); (7, 3); (6, 3); (0, 4); (2, 7); (6, 1); (6, 2)], 1, 2, 25, (Ret [0; 6], Ret [], Ret []), Ret [2; 3; 6; 7]);
+   (5, [(0, 3); (1, 2); (4, 0); (4, 2); (0, 2); (1, 0)], 2, 4, 1, (Ret [], Ret [], Ret []), Ret [0; 1; 4])].
+Definition cig_regression_mixed : list (nat * list (nat * nat * etype) * pyout (list nat) * pyout (list nat)) :=
+  [(6, [(0, 2, Bi); (2, 4, Bi); (3, 4, Bi); (1, 4, Unk); (3, 0, Bi)], Ret [0; 2; 3; 4], Ret [0; 2; 3; 4]);
+   (4, [(0, 2, Und); (3, 1, Bi); (0, 3, UnkDir); (1, 0, Und); (2, 1, UnkUnd); (3, 2, Bi)], Ret [3], Ret []);
+   (7, [(6, 4, Bi); (0, 3, Dir); (1, 5, Bi); (1, 2, UnkDir); (6, 1, Und); (3, 4, UnkDir); (1, 0, Dir); (1, 3, UnkUnd); (3, 2, Dir); (6, 3, Dir)], Ret [3], Ret [3]);
+   (6, [(2, 3, UnkDir); (1, 5, Bi); (3, 0, UnkUnd); (2, 5, UnkDir); (3, 4, Dir); (0, 4, Bi); (5, 3, Dir); (2, 0, Dir); (1, 4, Bi)], Ret [0; 1; 4], Ret [0; 1]);
+   (4, [(2, 1, Dir); (0, 2, Dir); (1, 0, UnkDir); (3, 2, UnkDir); (3, 0, Bi)], Ret [], Ret []);
+   (4, [(2, 3, Und); (0, 2, Bi); (2, 1, Bi)], Ret [2], Ret [2]);
+   (4, [(0, 3, Dir); (2, 0, Bi); (1, 3, Dir); (3, 2, Unk); (1, 2, Dir)], Ret [2; 3], Ret [2; 3]);
+   (6, [(1, 0, Bi); (5, 3, UnkDir); (3, 1, Und); (0, 4, Dir); (1, 5, UnkDir); (0, 5, Bi)], Ret [0], Ret []);
+   (7, [(5, 2, Dir); (3, 2, Dir); (1, 6, UnkDir); (1, 5, UnkUnd); (1, 0, UnkDir); (0, 4, UnkUnd); (4, 1, Dir); (6, 4, Und); (2, 4, UnkDir); (1, 2, Dir); (5, 3, Dir); (3, 1, Und); (3, 4, UnkUnd); (2, 0, Dir)], Ret [2], Ret []);
+   (4, [(1, 2, Bi); (0, 3, UnkDir); (3, 2, Dir); (0, 2, Bi)], Ret [2], Ret []);
+   (7, [(1, 4, Bi); (3, 0, Bi); (3, 5, Dir); (6, 4, Dir); (2, 3, Dir); (4, 2, Unk); (4, 5, UnkDir); (5, 0, UnkUnd); (1, 0, UnkDir); (4, 0, Dir); (6, 1, UnkDir); (2, 6, Bi); (1, 5, Dir); (3, 6, Dir)], Ret [0; 3; 4; 5; 6], Ret [0; 3; 5]);
+   (6, [(1, 3, Dir); (0, 3, Dir); (2, 0, Dir); (4, 0, Bi); (2, 4, Unk); (4, 1, Bi); (2, 3, Bi)], Ret [0; 3; 4], Ret [4]);
+   (5, [(3, 4, Dir); (4, 2, Dir); (3, 2, Unk); (1, 3, Unk); (1, 0, Bi); (4, 1, Dir); (1, 2, Dir); (0, 2, Bi)], Ret [0; 1; 2], Ret [1]);
+   (6, [(0, 4, UnkUnd); (4, 1, Dir); (2, 4, Dir); (1, 2, Bi); (3, 0, UnkDir); (5, 4, Bi); (1, 0, Dir); (1, 5, Unk); (3, 2, Bi); (3, 1, Bi)], Ret [1; 2; 3; 4], Ret [4]);
+   (6, [(0, 1, Unk); (4, 0, Dir); (5, 0, Unk); (4, 2, Bi); (2, 1, Und); (3, 1, Und); (1, 4, Bi); (5, 3, Unk)], Ret [4], Ret []);
+   (4, [(3, 0, Bi); (2, 0, UnkDir); (1, 3, Dir); (1, 0, Dir)], Ret [0; 3], Ret [])].
+
+Definition cig_exc_eqb (a b : pyexc) : bool := Nat.eqb (cig_exc_code a) (cig_exc_code b).
+Fixpoint cig_list_eqb (a b : list nat) : bool :=
+  match a, b with
+  | [], [] => true
+  | x :: a', y :: b' => Nat.eqb x y && cig_list_eqb a' b'
+  | _, _ => false
+  end.
+Definition cig_out_eqb (a b : pyout (list nat)) : bool :=
+  match a, b with
+  | Ret x, Ret y => cig_list_eqb x y
+  | Exc x, Exc y => cig_exc_eqb x y
+  | _, _ => false
+  end.
+
+Definition cig_check_dag (ord : pyorder)
+    (c : nat * list (nat * nat) * nat * nat * nat
+         * (pyout (list nat) * pyout (list nat) * pyout (list nat)) * pyout (list nat)) : bool :=
+  let '(n, arcs, x, y, mx, (ec, ei, em), emb) := c in
+  cig_out_eqb (cigo_confounders ord n arcs x y) ec
+  && cig_out_eqb (cigo_instruments_max ord n arcs x y mx) ei
+  && cig_out_eqb (cigo_mediators_max ord n arcs x y mx) em
+  && cig_out_eqb (cigo_markov_boundary ord n arcs x) emb.
+
+Definition cig_check_mixed (ord : pyorder)
+    (c : nat * list (nat * nat * etype) * pyout (list nat) * pyout (list nat)) : bool :=
+  let '(n, es, e1, e2) := c in
+  cig_out_eqb (cigo_colliders ord n es false) e1 && cig_out_eqb (cigo_colliders ord n es true) e2.
+
+Example cig_regression_ok :
+  forallb (cig_check_dag pyorder_id) cig_regression_dags = true /\
+  forallb (cig_check_dag pyorder_alt) cig_regression_dags = true /\
+  forallb (cig_check_mixed pyorder_id) cig_regression_mixed = true /\
+  forallb (cig_check_mixed pyorder_alt) cig_regression_mixed = true.
 Proof. vm_compute. repeat split; reflexivity. Qed.
